@@ -119,6 +119,10 @@ def cli(argv=sys.argv, mode='output'):
 
     with msg_prefix("c INPUT: "):
         interactive_msg(msg, filltext=70)
+    if args.input is None:
+        raise CLIError("the standard input is closed: use -i <file>")
+    if mode == 'output' and args.output is None:
+        raise CLIError("the standard output is closed: use -o <file>")
     F = CNF.from_file(args.input)
 
     # Default permutation
